@@ -88,6 +88,7 @@ CONSTANTS
 {"VIEW ViewNoHist" if view else ""}
 INVARIANT ProgramSeesAbstractMemory
 INVARIANT MagicIsData
+INVARIANT AllIndicesInBounds
 INVARIANT DeviceSeesAbstractMemory
 INVARIANT LoadedEqualsAbstract
 PROPERTY ResultMatches
@@ -159,7 +160,7 @@ def scale_scenario(sc: dict, idx: int) -> dict:
             noflat = e["noflat"]
         elif op == "flip":
             code.append((r_access(e["a"], w, variant) * w + e["b"], None))
-        elif op == "read":
+        elif op in ("read", "fetch"):
             # execute an op placed AT the accessed word (flip word there, jump word in the next word)
             ra = r_access(e["a"], w, variant)
             code.append((scratch, ra * w))
